@@ -179,7 +179,7 @@ def lazy_case(draw):
     "C37",
     "stencil_eigen",
     eigen_case,
-    quick=100,
+    quick=60,
     thorough=2000,
     tol="|L[e] - lambda e| <= 1e-5 * ||L||_inf (float32 stencil; observed <= 6e-7); coefficients 1e-14",
     rule="at least one plane wave with (p,q) != (0,0)",
@@ -273,7 +273,7 @@ def _vacuum_dz(case):
     "C37",
     "vacuum_intensity",
     vacuum_case,
-    quick=50,
+    quick=30,
     thorough=1000,
     tol="sum|psi|^2 preserved to 1e-4 relative per wave (observed <= 1e-6)",
     rule=">=2 slices and the wave changed by > 1e-3 of its maximum",
@@ -347,7 +347,7 @@ def _lazy_setup(case):
     "C37",
     "lazy_eager",
     lazy_case,
-    quick=36,
+    quick=22,
     thorough=600,
     tol="max|lazy - eager| <= 1e-6 * max|eager| (observed 0)",
     rule=">=2 slices",
